@@ -67,6 +67,14 @@ fn drawn(seed: &[u8; 32]) -> [u8; 32] {
     rand_chacha::ChaCha20Rng::from_seed(*seed).gen::<[u8; 32]>()
 }
 
+/// lengths that get the full treatment (both keys, every transport, every identifier); the lengths that only the
+/// dense band contributes are sealed and opened under the first key (quick tier)
+pub fn base_lens(tier: Tier) -> Vec<usize> {
+    let mut v: Vec<usize> = if tier.thorough() { return lens_for(tier) } else { vec![0, 1, 30, 31, 32, 33, 40, 127, 128, 140, 16383, 16384, 65535, 65536, 65537, 2097151, 2097152] };
+    v.extend(41..=300);
+    v
+}
+
 pub fn lens_for(tier: Tier) -> Vec<usize> {
     if tier.thorough() {
         let mut v: Vec<usize> = (0..=40).collect();
@@ -146,8 +154,12 @@ impl<C: Suite> Model for M11<C> {
     fn init(&self) -> Vec<St> {
         let mut v = vec![];
         for s in SCHEMES {
+            let base = base_lens(self.tier);
             for k in 0..2 {
                 for &len in &self.lens {
+                    if k != 0 && !base.contains(&len) {
+                        continue;
+                    }
                     v.push(St { s, k, len, base: false, pick: 0, devs: vec![] });
                 }
                 for len in [5usize, 33] {
@@ -168,6 +180,9 @@ impl<C: Suite> Model for M11<C> {
         let mut a = vec![];
         if st.devs.is_empty() {
             for c in [Codec::Bytes, Codec::Bare, Codec::Json] {
+                if c != Codec::Bytes && !st.base && !base_lens(self.tier).contains(&st.len) {
+                    continue;
+                }
                 a.push(Dev::Transport(c));
             }
             if !st.base {
